@@ -671,3 +671,67 @@ def rule_zero_intolerant(chk, rid):
             chk.violation(rid, b.file, b.name, "%s with unchecked run-time operand" % what,
                           "`%s` receives a run-time value that is never compared against zero (here or at its callers): a zero argument panics the host "
                           "(chunks/windows/step_by) or divides by zero" % what, detail=d, loc=d["at"])
+
+
+def rule_progressive_type_check(chk, rid):
+    """R03f: Builder::new decides 'argument kind is fully covered by the parameter kind' on the argument's own, unmodified kind"""
+    facts = chk.facts
+    BUILDER_NEW = "compiler::expression::function_call::Builder::<'a>::new"
+    chk.rule(rid, "Builder::new: Kind::is_superset/intersects are applied to parameter.kind() and the argument's unmodified type_def kind; "
+                  "a failed superset test records the argument as needing a runtime type check", floor=2)
+    b = chk.anchor(BUILDER_NEW, rid)
+    if b is None:
+        return
+    pushes = cfgq.calls_to(b, lambda c: c.startswith("std::vec::Vec::<") and c.endswith(">::push"))
+    unk_pushes = []
+    for bb, t in pushes:
+        l = op_local(t["args"][0])
+        r = cfgq.ref_root(b, l) if l is not None else None
+        nm = {b.local_name(x) for x in cfgq.ref_chain(b, l)} if l is not None else set()
+        if "arguments_with_unknown_type_validity" in nm:
+            unk_pushes.append(bb)
+    tests = [(bb, t) for bb, t in b.calls() if re.search(r"impl value::kind::Kind>::(is_superset|intersects)$", b.callee(t))]
+    n_ok = 0
+    for bb, t in tests:
+        which = b.callee(t).rsplit("::", 1)[1]
+        arg = op_local(t["args"][1]) if len(t["args"]) > 1 else None
+        recv = op_local(t["args"][0])
+
+        def producer(l):
+            if l is None:
+                return None
+            last = cfgq.ref_chain(b, l)[-1]
+            ds = b.defs().get(last, [])
+            calls = [b.callee(x[3]) for x in ds if x[0] == "call"]
+            return calls[0] if calls else ("param" if 1 <= last <= b.argc else None)
+        pa, pr = producer(arg), producer(recv)
+        d = {"fn": BUILDER_NEW, "test": which, "at": "%s:%s" % (b.file, t["ln"]), "argument_kind_from": pa, "parameter_kind_from": pr}
+        ok = bool(pa) and pa.endswith("TypeDef::kind") and bool(pr) and pr.endswith("Parameter::kind")
+        if which == "is_superset":
+            # Err edge must reach the push
+            res = t["dest"]["l"]
+            okp = False
+            holders = {res}
+            for kind, ubb, si, x in uses_of(b, res):
+                if kind == "stmt" and x["rv"]["k"] in ("ref", "use"):
+                    holders.add(x["d"]["l"])
+            for h in holders:
+                for kind, ubb, si, x in uses_of(b, h):
+                    if kind == "call" and re.search(r"::(is_err|is_ok)$", b.callee(x)):
+                        e = cfgq.bool_switch_after_call(b, ubb)
+                        if not e:
+                            continue
+                        fail_edge, pass_edge = (e[0], e[1]) if b.callee(x).endswith("is_err") else (e[1], e[0])
+                        if any(pb in b.reachable_from_edges([fail_edge], avoid=[pass_edge]) for pb in unk_pushes):
+                            okp = True
+            d["failed_test_records_argument"] = okp
+            ok = ok and okp
+        chk.instance(rid, d, ok=ok)
+        if ok:
+            n_ok += 1
+        else:
+            chk.violation(rid, b.file, BUILDER_NEW, "%s on an adjusted kind" % which,
+                          "Builder::new applies %s to %s / %s instead of parameter.kind() and the argument's own type_def kind: an argument whose kind only "
+                          "partly matches (e.g. `T | undefined`) is treated as fully valid and the call is typed infallible" % (which, pr, pa), detail=d, loc=d["at"])
+    if not tests:
+        chk.fail_closed(rid, "Builder::new: no Kind::is_superset / intersects test found")
